@@ -49,7 +49,7 @@ def main():
                 for rel, p in files.items():
                     cmd += ["-overlay", f"{rel}={p}"]
                 r = subprocess.run(cmd, capture_output=True, text=True)
-                diags = re.findall(r'^DIAG property=\S+ rule=(\S+) construct=(.*?) at ', r.stdout, re.M)
+                diags = re.findall(r'^DIAG property=\S+ rule=(\S+) construct=(.*?) at \S*:', r.stdout, re.M)
                 got = [f"{a}:{b}" for a, b in diags]
                 missing = []
                 for e in meta["expect"]:
